@@ -216,13 +216,71 @@ func c18RefShape(ids []int64) bool {
 // --- checker ---------------------------------------------------------------------------------
 
 type c18Checker struct {
-	res        *fw.Result
-	kind       string // case kind, for the per-sub-check violation counters in the evidence
-	violations int
-	samples    []any
+	res             *fw.Result
+	kind            string // case kind, for the per-sub-check violation counters in the evidence
+	reorderReported bool
+	violations      int
+	samples         []any
 }
 
 const c18MaxViolationsPerCase = 40
+
+// afterCall looks at the caller's object after Polygon() returned. A classification that
+// changes the tag SET (a tag lost, added, rewritten) has changed what the answer depends on:
+// violation. One that only REORDERS the caller's tags still answers from the same set; the
+// statement ("depends only on the tag set, not on tag order") does not say the way is left
+// untouched, so a reorder is recorded (counter + one INCONCLUSIVE line per case), not asserted.
+func (ck *c18Checker) afterCall(key, what string, before []c18Tag, after osm.Tags, nBefore, nAfter int) {
+	ck.res.Add("objects_compared_before_after", 1)
+	same := len(before) == len(after) && nBefore == nAfter
+	if same {
+		for i, t := range before {
+			if after[i].Key != t.K || after[i].Value != t.V {
+				same = false
+				break
+			}
+		}
+	}
+	if same {
+		return
+	}
+	if !c18SameTagMultiset(before, after) || nBefore != nAfter {
+		ck.violate(key+"/object-changed", "%s.Polygon() changed its receiver: tags before %s, after %s; nodes/members %d -> %d", what, c18FmtTags(before), c18FmtOsmTags(after), nBefore, nAfter)
+		return
+	}
+	ck.res.Add("tags_reordered_by_polygon", 1)
+	ck.res.SetMax("tags_reordered_by_polygon_min_tags_neg", -int64(len(before)))
+	if !ck.reorderReported {
+		ck.reorderReported = true
+		ck.res.Inconc("%s.Polygon() reordered the caller's tags (same tag set, answer unaffected; not asserted): before %s, after %s", what, c18FmtTags(before), c18FmtOsmTags(after))
+	}
+}
+
+func c18SameTagMultiset(before []c18Tag, after osm.Tags) bool {
+	if len(before) != len(after) {
+		return false
+	}
+	n := map[c18Tag]int{}
+	for _, t := range before {
+		n[t]++
+	}
+	for _, t := range after {
+		k := c18Tag{t.Key, t.Value}
+		if n[k] == 0 {
+			return false
+		}
+		n[k]--
+	}
+	return true
+}
+
+func c18FmtOsmTags(ts osm.Tags) string {
+	l := make([]c18Tag, len(ts))
+	for i, t := range ts {
+		l[i] = c18Tag{t.Key, t.Value}
+	}
+	return c18FmtTags(l)
+}
 
 func (ck *c18Checker) violate(key, format string, a ...any) {
 	ck.violations++
@@ -319,6 +377,7 @@ func (ck *c18Checker) way(key, sig string, ids []int64, shapeOK, assertShape boo
 			ck.violate(key+"/panic", "Way.Polygon() panicked (%v) on nodes=%v tags=%s", pan, c18Ids(ids), c18FmtTags(l))
 			continue
 		}
+		ck.afterCall(key, "Way", l, w.Tags, len(ids), len(w.Nodes))
 		if !stable {
 			ck.violate(key+"/unstable", "two calls of Way.Polygon() on the same way disagree; nodes=%v tags=%s", c18Ids(ids), c18FmtTags(l))
 		}
@@ -915,7 +974,7 @@ func c18Rel(ck *c18Checker) {
 				ck.violate(key+"/panic", "Relation.Polygon() panicked (%v) on tags=%s members=%s", pan, c18FmtTags(l), m.label)
 			} else if !stable {
 				ck.violate(key+"/unstable", "two calls of Relation.Polygon() disagree on tags=%s members=%s", c18FmtTags(l), m.label)
-			} else if got != want {
+			} else if ck.afterCall(key, "Relation", l, r.Tags, len(m.ms), len(r.Members)); got != want {
 				ck.violate(key, "Relation.Polygon()=%v, want %v (the answer is a function of the type tag only: multipolygon or boundary): tags=%s members=%s (%d) relation=%s",
 					got, want, c18FmtTags(l), m.label, len(m.ms), meta.label)
 			}
@@ -1220,7 +1279,185 @@ func c18Cold(c fw.Case) *fw.Result {
 	return res
 }
 
+// c18Shared: concurrent READERS of one shared object. Polygon() is a predicate; several
+// goroutines asking the same *Way (or *Relation) at once must all get the single-threaded
+// answer, and the object must afterwards still be the same tag set with the same answer.
+// Ways carry 9..40 tags in a non-sorted order; each round uses a fresh way (any hidden
+// first-call work happens once per object) and releases the goroutines together (all parked on one channel that is then closed).
+func c18Shared(c fw.Case) *fw.Result {
+	res := fw.NewResult()
+	c18Stats()
+	c18CheckUnrelated()
+	ck := &c18Checker{res: res, kind: c.Kind}
+	r := gen.New(c.Seed, "c18shared")
+	rounds := int(c.Int("rounds"))
+	var examples []any
+	for round := 0; round < rounds; round++ {
+		class := []string{"one-passing-tag", "passing-tags+area=no", "failing-tags+area=yes", "nothing-passes", "blacklisted-only"}[round%5]
+		var tags []c18Tag
+		switch class {
+		case "one-passing-tag":
+			k := c18KeyOrder[r.Intn(len(c18KeyOrder))]
+			v := "yes"
+			if own := c18OwnListed(k); len(own) > 0 && c18KindOf(k) == "whitelist" {
+				v = own[r.Intn(len(own))]
+			}
+			tags = append(tags, c18Tag{k, v})
+		case "passing-tags+area=no":
+			tags = append(tags, c18Tag{"area", "no"}, c18Tag{"building", "yes"}, c18Tag{"natural", "water"}, c18Tag{"highway", "services"})
+		case "failing-tags+area=yes":
+			tags = append(tags, c18Tag{"area", "yes"}, c18Tag{"highway", "residential"}, c18Tag{"building", "no"}, c18Tag{"natural", "coastline"})
+		case "nothing-passes":
+			tags = append(tags, c18Tag{"highway", "residential"}, c18Tag{"railway", "rail"}, c18Tag{"barrier", "fence"}, c18Tag{"landuse", "no"})
+		case "blacklisted-only":
+			tags = append(tags, c18Tag{"natural", "tree_row"}, c18Tag{"man_made", "pipeline"}, c18Tag{"aeroway", "taxiway"})
+		}
+		n := r.Range(9, 40)
+		up := r.Perm(len(c18Unrelated))
+		for i := 0; len(tags) < n; i++ {
+			if i < len(up) && r.Chance(0.6) {
+				tags = append(tags, c18Unrelated[up[i]])
+			} else {
+				tags = append(tags, c18Tag{fmt.Sprintf("x%c%03d", 'a'+rune(r.Intn(26)), round*50+i), r.PickS("yes", "no", "services", "1", "")})
+			}
+		}
+		for tries := 0; ; tries++ {
+			r.Shuffle(len(tags), func(a, b int) { tags[a], tags[b] = tags[b], tags[a] })
+			sorted := true
+			for i := 1; i < len(tags); i++ {
+				if tags[i-1].K > tags[i].K {
+					sorted = false
+				}
+			}
+			if !sorted || tries > 10 {
+				break
+			}
+		}
+		want := c18RefTags(c18TagSet(tags), false)
+		G := []int{8, 12, 16}[round%3]
+		const callsPer = 3
+
+		// --- way ---
+		w := c18Way(c18Closed5, tags)
+		answers := make([][callsPer]int8, G) // 0 false, 1 true, 2 panic
+		var ready sync.WaitGroup
+		var done sync.WaitGroup
+		goCh := make(chan struct{})
+		ready.Add(G)
+		done.Add(G)
+		for g := 0; g < G; g++ {
+			go func(g int) {
+				defer done.Done()
+				ready.Done()
+				<-goCh
+				for i := 0; i < callsPer; i++ {
+					func() {
+						defer func() {
+							if recover() != nil {
+								answers[g][i] = 2
+							}
+						}()
+						if w.Polygon() {
+							answers[g][i] = 1
+						}
+					}()
+				}
+			}(g)
+		}
+		ready.Wait()
+		close(goCh)
+		done.Wait()
+		res.Event(int64(G * callsPer))
+		res.Add("shared_concurrent_calls", int64(G*callsPer))
+		wrong, panics := 0, 0
+		for g := range answers {
+			for _, a := range answers[g] {
+				if a == 2 {
+					panics++
+				} else if (a == 1) != want {
+					wrong++
+				}
+			}
+		}
+		if panics > 0 {
+			ck.violate("C18/shared/way/"+class+"/panic", "Way.Polygon() panicked in %d of %d concurrent calls on one shared way with %d tags", panics, G*callsPer, len(tags))
+		}
+		if wrong > 0 {
+			ck.violate("C18/shared/way/"+class+"/concurrent-answer", "%d of %d concurrent Way.Polygon() calls (%d goroutines) on ONE shared, never written way answered %v, the rules say %v: tags=%s",
+				wrong, G*callsPer, G, !want, want, c18FmtTags(tags))
+			res.Add("shared_rounds_with_wrong_concurrent_answer", 1)
+		}
+		if got, _, pan := c18CallWay(w); pan != nil || got != want {
+			ck.violate("C18/shared/way/"+class+"/answer-after", "after %d goroutines only READ the way concurrently, a single-threaded Way.Polygon() answers %v (panic %v), the rules say %v: original tags=%s, tags now=%s",
+				G, got, pan, want, c18FmtTags(tags), c18FmtOsmTags(w.Tags))
+		}
+		ck.afterCall("C18/shared/way/"+class, "concurrent Way", tags, w.Tags, len(c18Closed5), len(w.Nodes))
+		res.Eval(fmt.Sprintf("shared/way/%s/g%d/n%d", class, G, len(tags)/8*8))
+		res.SetMax("shared_tags", int64(len(tags)))
+
+		// --- relation ---
+		if round%4 == 0 {
+			typ := []string{"multipolygon", "boundary", "route", ""}[(round/4)%4]
+			rtags := append([]c18Tag{}, tags...)
+			for i := range rtags { // no rule meaning for relations; put the type tag somewhere inside
+				if rtags[i].K == "type" {
+					rtags[i] = c18Tag{"type_", rtags[i].V}
+				}
+			}
+			rtags[len(rtags)/2] = c18Tag{"type", typ}
+			rel := &osm.Relation{ID: 3, Members: osm.Members{{Type: osm.TypeNode, Ref: 1, Role: "label"}, {Type: osm.TypeWay, Ref: 2, Role: "outer"}}}
+			for _, t := range rtags {
+				rel.Tags = append(rel.Tags, osm.Tag{Key: t.K, Value: t.V})
+			}
+			rwant := typ == "multipolygon" || typ == "boundary"
+			var rwrong atomic.Int64
+			var rready, rdone sync.WaitGroup
+			rgo := make(chan struct{})
+			rready.Add(G)
+			rdone.Add(G)
+			for g := 0; g < G; g++ {
+				go func() {
+					defer rdone.Done()
+					defer func() {
+						if recover() != nil {
+							rwrong.Add(1)
+						}
+					}()
+					rready.Done()
+					<-rgo
+					for i := 0; i < callsPer; i++ {
+						if rel.Polygon() != rwant {
+							rwrong.Add(1)
+						}
+					}
+				}()
+			}
+			rready.Wait()
+			close(rgo)
+			rdone.Wait()
+			res.Event(int64(G * callsPer))
+			res.Add("shared_concurrent_calls", int64(G*callsPer))
+			if rwrong.Load() > 0 {
+				ck.violate("C18/shared/rel/type="+typ+"/concurrent-answer", "%d concurrent Relation.Polygon() calls on one shared relation answered %v (or panicked), want %v", rwrong.Load(), !rwant, rwant)
+			}
+			if got, _, pan := c18CallRel(rel); pan != nil || got != rwant {
+				ck.violate("C18/shared/rel/type="+typ+"/answer-after", "after concurrent reads a single-threaded Relation.Polygon() answers %v (panic %v), want %v", got, pan, rwant)
+			}
+			ck.afterCall("C18/shared/rel/type="+typ, "concurrent Relation", rtags, rel.Tags, 2, len(rel.Members))
+			res.Eval(fmt.Sprintf("shared/rel/type=%s/g%d", typ, G))
+		}
+		if len(examples) < 2 {
+			examples = append(examples, map[string]any{"class": class, "goroutines": G, "calls_each": callsPer, "tags": c18TagPairs(tags), "expected": want, "wrong_concurrent_answers": wrong})
+		}
+	}
+	res.Sample = map[string]any{"variant": c.Variant, "rounds": rounds, "examples": examples}
+	return res
+}
+
 func c18Exec(c fw.Case) *fw.Result {
+	if c.Kind == "shared" {
+		return c18Shared(c)
+	}
 	if c.Kind == "coldstart" {
 		if fw.IsCold() {
 			return c18Cold(c)
@@ -1288,7 +1525,7 @@ func init() {
 			"(pairs) all ordered pairs of rule keys × {no, \"\", yes, a value listed under another key, every own listed value}² × the five area classes, both orders; " +
 			"(perm) every key × representative value × area class with two unrelated tags under ALL permutations; (unrelated) 57 near-miss keys alone, in all ordered pairs, all together, and around every key × representative value; " +
 			"(area) 24 spellings of the area value × 8 tag contexts; (pre) 31 node-ref shapes (0..6 and 2000 refs, open, closed, inner loops, negative / zero / >2^32 refs) × 12 tag sets; 40 annotation variants of the two end way-nodes (every subset of version/changeset/lat/lon differing, one-sided, NaN) × closed-by-ref / open-by-ref × 3 rings × 12 tag sets; " +
-			"(rel) 33 type values + absent × 6 tag contexts × 19 member-list shapes (nil, empty, one node / way / relation, only nodes, only relations, nodes+relations, only ways, way first / middle / last, annotated, unknown member types, self reference, 500 of a kind) × type first/last/middle, with the relation's own id / version / visibility / metadata (6 variants) rotating, plus the full metadata × member shape × {multipolygon, boundary, route, empty} grid and repeated type keys where both occurrences agree; (multi) PRNG sets of 0–6 rule keys + area + unrelated tags under reverse, every rotation and 4 shuffles. " +
+			"(rel) 33 type values + absent × 6 tag contexts × 19 member-list shapes (nil, empty, one node / way / relation, only nodes, only relations, nodes+relations, only ways, way first / middle / last, annotated, unknown member types, self reference, 500 of a kind) × type first/last/middle, with the relation's own id / version / visibility / metadata (6 variants) rotating, plus the full metadata × member shape × {multipolygon, boundary, route, empty} grid and repeated type keys where both occurrences agree; (shared) 8/12/16 goroutines × 3 calls on one shared closed way with 9–40 tags in unsorted order (5 decision classes: one passing tag, passing tags + area=no, failing tags + area=yes, nothing passes, blacklisted only) and on one shared relation, a fresh object per round, plain and race builds; (multi) PRNG sets of 0–6 rule keys + area + unrelated tags under reverse, every rotation and 4 shuffles. " +
 			"A signature is the tag set itself for single (key, value, area class), the (key:class, key:class, area) triple for pairs, (key:class, area, n) for perm, the named shape × tag set for pre, (type, context, members) for rel and a (rule keys, area, unrelated, shape, answer) class for multi; re-orderings and open/3-ref repeats of an already counted set are trivial. distinct_nontrivial counts distinct signatures.",
 		Assumptions: []string{
 			"the CONTENT of the rule table (which keys, which rule kind, which values) is trusted to be the published tyrasd/osm-polygon-features list: /verif's copy was transcribed without network access by reading the library's embedded JSON entry by entry and comparing it with the published list as known, restructured into hash maps by rule kind, and pinned by counts and a checksum computed from a second transcription; what is tested is the library's lookup logic, init-time sorting, per-value answers, area / 'no' / closedness handling and order independence — not whether upstream has since changed the list",
@@ -1297,6 +1534,7 @@ func init() {
 			"comparisons are exact strings as in the published rules: 'No', 'no ' and ' no' are values other than 'no'; near-miss keys (case, blanks, prefixes such as building:levels) are unrelated tags",
 			"a tag list that repeats a key is not a tag set; never generated",
 			"closedness is equality of the first and last node ref with more than three refs, whatever the refs are (negative, zero, > 2^32, there-and-back rings); the annotations of the two end way-nodes (version, changeset, lat, lon, NaN, one-sided) do not matter and are enumerated in every combination; only a 4-ref way whose refs are all the same node is run but not asserted",
+			"Polygon() is a read-only predicate: concurrent callers of ONE shared way / relation must all get the single-threaded answer, the object must afterwards still hold the same tag multiset and give the same answer (asserted, plain and race builds; a race report with a library frame is a violation). After every single-threaded call the receiver is compared with its state before: a changed tag set / node or member count is a violation, a mere REORDERING of the caller's tags (same set, answer unaffected) is outside the statement's wording and is recorded only (tags_reordered_by_polygon, one INCONCLUSIVE line per case)",
 			"Relation.Polygon() is compared for every listed type spelling; the member list (any shape, with or without way members), the relation's id / version / visibility / metadata, other tags (including area=no) and tag order must not matter; a tag list that repeats the type key is asserted only where every occurrence gives the same answer (which occurrence wins is counted, not asserted)",
 		},
 		Cases: func(tier string, seed uint64) []fw.Case {
@@ -1319,6 +1557,20 @@ func init() {
 			}
 			for i := 0; i < nMulti; i++ {
 				cs = append(cs, fw.Case{Kind: "multi", Seed: gen.Sub(seed, "c18multi", i), P: map[string]int64{"n": per}})
+			}
+			// concurrent readers of one shared way / relation (9..40 unsorted tags), plain and race
+			sharedCases, sharedRounds := 6, int64(400)
+			if tier == "thorough" {
+				sharedCases, sharedRounds = 12, 4000
+			}
+			for _, v := range []string{"plain", "race"} {
+				for i := 0; i < sharedCases; i++ {
+					rounds := sharedRounds
+					if v == "race" {
+						rounds /= 4
+					}
+					cs = append(cs, fw.Case{Kind: "shared", Variant: v, Seed: gen.Sub(seed, "c18shared"+v, i), P: map[string]int64{"rounds": rounds}})
+				}
 			}
 			// the first use of the rule table in a fresh process, by 64 goroutines at once
 			for _, v := range []string{"plain", "race"} {
